@@ -31,6 +31,9 @@ CHECKS = {
     "C01": ("Hypothesis-generated planted poses: analytic Gaussian-blob particles rendered into tomograms at (p*, R*), input molecules perturbed by (m, q_k) inside the search range; oracle = planted pose and features, for single/batch/group/mock/multi-template/template-free loaders",
             "Generated-input exploration against planted ground truth (position within 0.25 px, orientation within 1e-3 rad, shift/rotation/score features, template label, align_no_template == align(average)).",
             "blob templates (>= 3 blobs at radius >= 2.5 px, distinct amplitudes) contained in the inscribed ball; rotation sets >= 25 deg apart; equal-energy templates for the multi-template kind; isotropic (max, step) grids taken from acryo's own normalize_rotations", "4/C01"),
+    "C06": ("Hypothesis-generated planted (template j, rotation k, shift d) sub-volumes built analytically; oracle = planted labels/rotation/shift, score optimality against separately evaluated candidates, permutation metamorphic relation; loader/group routes on planted tomograms; (max, step) grids against the documented construction",
+            "Generated-input exploration with planted ground truth, a differential optimality oracle (full search == max over candidates evaluated alone), a metamorphic permutation relation, and a documented-grid oracle for (max, step) ranges.",
+            "rotation sets contain the identity and are >= 25 deg apart; FSC not used (degenerate on band-limited blobs); PCC with unequal-energy templates is a recorded known finding; optimality oracle only for T*K <= 9", "4/C06"),
 }
 
 NOT_YET = {}
